@@ -70,3 +70,53 @@ func VF_C12_total_on_arbitrary_bytes_2() {
 func VF_C12_total_on_arbitrary_bytes_3() {
 	vhTotalRun(3, 10)
 }
+
+//vf:tier quick
+//vf:bigint theory
+//vf:unwind 1200
+//vf:maxsteps 12000000
+//vf:bound nesting limits: n nested TRY blocks for n in 14..18 (HALT iff n <= 16, never more than 16 open try contexts); unbounded recursion CALL-to-self entered after 0..2 NOPs (FAULT, never more than 1024 invocation contexts, item accounting exact during the first 12 steps)
+func VF_C12_nesting_limits() {
+	if vfChoose("kind", 0, 1) == 0 {
+		n := vfChoose("nested-try", 14, 18)
+		var script []byte
+		for i := 0; i < n; i++ {
+			script = append(script, byte(opcode.TRY), 3, 0) // catch handler = the next instruction
+		}
+		script = append(script, byte(opcode.PUSH1), byte(opcode.RET))
+		v := New()
+		v.LoadScript(script)
+		deepest := 0
+		for i := 0; i < 40 && !v.HasStopped() && len(v.istack) > 0; i++ {
+			if v.Step() != nil {
+				break
+			}
+			if len(v.istack) > 0 {
+				deepest = max(deepest, v.Context().tryStack.Len())
+			}
+		}
+		vfAssert(deepest <= MaxTryNestingDepth, "try-depth<=16")
+		vfAssert((v.state == vmstate.Fault) == (n > MaxTryNestingDepth), "FAULT<=>more-than-16-nested-try")
+		return
+	}
+	pre := vfChoose("nops", 0, 2)
+	var script []byte
+	for i := 0; i < pre; i++ {
+		script = append(script, byte(opcode.NOP))
+	}
+	script = append(script, byte(opcode.PUSH1), byte(opcode.CALL), 0xFF) // CALL -1: back to the PUSH1
+	v := New()
+	v.LoadScript(script)
+	deepest := 0
+	for i := 0; i < 2100 && !v.HasStopped() && len(v.istack) > 0; i++ {
+		if v.Step() != nil {
+			break
+		}
+		deepest = max(deepest, len(v.istack))
+		if i < 12 {
+			vfAssert(int(v.refs) == vhReachable(v), "recursion:refs==reachable")
+		}
+	}
+	vfAssert(deepest <= MaxInvocationStackSize, "invocation-depth<=1024")
+	vfAssert(v.state == vmstate.Fault, "unbounded-recursion=>FAULT")
+}
